@@ -84,6 +84,25 @@ func init() {
 		}
 		return L("0", x, y)
 	}
+	// widening: NewBuilder(n) + one Extend per segment against OfMany: word for word, Offset = sum of sizes
+	Exec["bitmap.Builder/asOfMany"] = func(a []V) string {
+		b := bitmap.NewBuilder(a[0].I32())
+		subs := make([][]int32, len(a[1].L))
+		for i, s := range a[1].L {
+			subs[i] = s.I32s()
+		}
+		sizes := a[2].I32s()
+		tot := int32(0)
+		for i := range subs {
+			b.Extend(subs[i], sizes[i])
+			tot += sizes[i]
+		}
+		r := bitmap.OfMany(subs, sizes)
+		if U64s(r) == U64s(b.Words) && b.Offset == tot {
+			return "[1]"
+		}
+		return L("0", U64s(r), U64s(b.Words), I32(b.Offset))
+	}
 	// widening: the constructors composed with the readers of C01 / C13
 	Exec["bitmap.Of/query"] = func(a []V) string {
 		return c12Query(c12Of(a[0].I32s(), a[1].L), a[2].Bool(), a[3].I32(), a[4].I32())
@@ -577,6 +596,7 @@ func genC12(g *Gen) {
 		}
 		g.Stat(fmt.Sprintf("ofmany-seg%d", nseg))
 		g.Do("bitmap.OfMany", L(c12Subs(subs), I32s(sizes)), key)
+		g.Do("bitmap.Builder/asOfMany", L(Int(g.R.Pick(0, 0, 64, 1000)), c12Subs(subs), I32s(sizes)), key)
 	}
 
 	// (5) Builder histories: NewBuilder(n), then 1..12 calls of Extend(ps, size) / Set(p, v)
@@ -787,6 +807,7 @@ func genC12(g *Gen) {
 		g.Do("bitmap.OfMany/asOf", L(c12Subs(subs), I32s(sizes)), key)
 		if asc {
 			g.Do("bitmap.OfMany", L(c12Subs(subs), I32s(sizes)), key)
+			g.Do("bitmap.Builder/asOfMany", L("0", c12Subs(subs), I32s(sizes)), key)
 		}
 		if len(prefix) == 3 {
 			return
